@@ -54,6 +54,12 @@ CONFIGS = {
     "dbg-tsan": (COMMON + HOOKS + STATS + ["-mavx2", "-O1", "-fsanitize=thread"],
                  dict([TSAN_RT])),
     # statistics compiled out: QSBR's statistics mutexes add happens-before edges that would hide a weakened memory order from TSan
+    # the release code path without statistics and with the other spin-wait variant (C16: the concurrent harnesses otherwise always have statistics compiled in)
+    "rel-nostats": (["-std=c++20", "-pthread", "-fno-omit-frame-pointer", "-g1", "-Wno-deprecated-declarations", "-Wno-attributes",
+                     "-DUNODB_SPINLOCK_LOOP_VALUE=2"] + HOOKS + ["-msse4.1", "-O2", "-DNDEBUG"], {}),
+    "dbg-nostats-asan": (["-std=c++20", "-pthread", "-fno-omit-frame-pointer", "-g1", "-Wno-deprecated-declarations", "-Wno-attributes",
+                          "-DUNODB_SPINLOCK_LOOP_VALUE=2"] + HOOKS + ["-msse4.1", "-O1", "-D_GLIBCXX_ASSERTIONS", "-fsanitize=address,undefined", "-fno-sanitize-recover=all"],
+                         dict([ASAN_RT, UBSAN_RT, LSAN_RT])),
     "rel-tsan-nostats": (COMMON + HOOKS + ["-mavx2", "-O1", "-DNDEBUG", "-fsanitize=thread"],
                          dict([TSAN_RT])),
 }
